@@ -7,9 +7,10 @@ tokens, so text inside them is never counted).  Reported, in file order then sou
 
   fs::<f>  File::<f>  OpenOptions  process::<f>  Command  env::<f>  thread::<f>  .spawn( / ::spawn(
   path methods that ask the file system:  .is_dir() .is_file() .exists() .metadata() .read_dir()
-                                          .canonicalize() .read_link() .symlink_metadata() .try_exists()
+                                          .canonicalize() .read_link() .symlink_metadata() .try_exists() .file_type()
   the words remove_file remove_dir remove_dir_all create_dir create_dir_all rename set_permissions
             hard_link soft_link symlink copy  when used as a path segment or method (after `::` or `.`)
+  SystemTime Instant UNIX_EPOCH RandomState thread_rng getrandom chrono rand::  (clock and randomness; class process)
   static <NAME>   unsafe   thread_local   lazy_static   OnceCell OnceLock Lazy LazyLock
   Mutex RwLock RefCell Cell UnsafeCell Condvar Atomic*    static mut
 
@@ -30,7 +31,9 @@ REPO = '/repo'
 READ_FNS = {'read_dir', 'read_to_string', 'read', 'metadata', 'symlink_metadata', 'canonicalize', 'read_link',
             'try_exists', 'open'}
 PATH_METHODS = {'is_dir', 'is_file', 'exists', 'metadata', 'read_dir', 'canonicalize', 'read_link',
-                'symlink_metadata', 'try_exists', 'is_symlink'}
+                'symlink_metadata', 'try_exists', 'is_symlink', 'file_type'}
+# sources of values that differ from process to process or from moment to moment
+NONDET_WORDS = {'SystemTime', 'Instant', 'UNIX_EPOCH', 'RandomState', 'thread_rng', 'getrandom', 'chrono', 'OsRng', 'StdRng'}
 WRITE_WORDS = {'remove_file', 'remove_dir', 'remove_dir_all', 'create_dir', 'create_dir_all', 'rename',
                'set_permissions', 'hard_link', 'soft_link', 'symlink', 'copy', 'set_len', 'create', 'create_new',
                'set_current_dir'}
@@ -95,6 +98,8 @@ def scan_file(path):
             elif t == 'static' and nxt[0] == 'id':
                 name = nn[1] if nxt[1] == 'mut' and nn[0] == 'id' else nxt[1]
                 out.append(('shared', 'static ' + ('mut ' if nxt[1] == 'mut' else '') + name))
+            elif t in NONDET_WORDS or (t == 'rand' and nxt == ('p', '::')):
+                out.append(('process', 'nondeterministic ' + t))
             elif t in SHARED_WORDS or t.startswith('Atomic'):
                 out.append(('shared', t))
         i += 1
